@@ -58,6 +58,13 @@ pub struct Log {
     pub backend_req: Vec<Backend>,
     pub set_config: Vec<(u32, Vec<u8>)>,
     pub exit_consumer_fds: Vec<RawFd>,
+    /// (uuid, duplicate of the file handed out)
+    pub shared_objects: Vec<([u8; 16], File)>,
+    /// (direction, duplicate of the file received, duplicate of the file returned)
+    pub device_state: Vec<(u32, File, Option<File>)>,
+    pub check_device_state: u64,
+    pub shmem_config: u64,
+    pub get_config: Vec<(u32, u32)>,
 }
 
 #[derive(Clone)]
@@ -159,7 +166,37 @@ where
         self.log.lock().unwrap().event_idx.push(enabled);
     }
     fn get_config(&self, offset: u32, size: u32) -> Vec<u8> {
-        (0..size).map(|i| (offset + i) as u8).collect()
+        self.log.lock().unwrap().get_config.push((offset, size));
+        (0..size).map(|i| (offset.wrapping_add(i) as u8) ^ 0x3c).collect()
+    }
+    fn get_shared_object(&mut self, uuid: vhost::vhost_user::message::VhostUserSharedMsg) -> std::io::Result<File> {
+        let f = crate::fdu::memfd("sharedobj", 4096);
+        let d = f.try_clone()?;
+        self.log.lock().unwrap().shared_objects.push((*uuid.uuid.as_bytes(), d));
+        Ok(f)
+    }
+    fn set_device_state_fd(
+        &mut self,
+        direction: vhost::vhost_user::message::VhostTransferStateDirection,
+        _phase: vhost::vhost_user::message::VhostTransferStatePhase,
+        file: File,
+    ) -> std::io::Result<Option<File>> {
+        // LOAD answers with a channel of the backend's own, SAVE uses the given one
+        let ret = if direction as u32 == 1 { Some(crate::fdu::memfd("devstate", 4096)) } else { None };
+        let rd = match &ret {
+            Some(f) => Some(f.try_clone()?),
+            None => None,
+        };
+        self.log.lock().unwrap().device_state.push((direction as u32, file, rd));
+        Ok(ret)
+    }
+    fn check_device_state(&self) -> std::io::Result<()> {
+        self.log.lock().unwrap().check_device_state += 1;
+        Ok(())
+    }
+    fn get_shmem_config(&self) -> std::io::Result<vhost::vhost_user::message::VhostUserShMemConfig> {
+        self.log.lock().unwrap().shmem_config += 1;
+        Ok(vhost::vhost_user::message::VhostUserShMemConfig::new(3, &[0x1000, 0x22000, 0x333000]))
     }
     fn set_config(&mut self, offset: u32, buf: &[u8]) -> std::io::Result<()> {
         self.log.lock().unwrap().set_config.push((offset, buf.to_vec()));
